@@ -7,7 +7,8 @@ C10 — the layers above and below the file session that the streams of c10.py d
               `RunCommand.add_cli_args` (`--save-report X`, `--report-dir`, `--threads`), `$LCC_SAVE_REPORT` is set in the
               environment, and the real `run_suites_from_project(project, cli_args)` is called: filter → PreparedProject →
               backends → `get_report_saving_strategy` → report dir → `Session.create` → run.  The project's reporting backends are
-              the real JSON and XML backends plus a recording backend subscribed last, which reloads the report files after
+              the real JSON, XML and JUnit backends — attached in any combination and order through the real `--reporting` option —
+              plus a recording backend subscribed last, which reloads the report files after
               every event (same observer as C10.snap).  Oracle: the file is refreshed at the points promised by the strategy
               the USER asked for (the option if given, else the variable, else `at_each_failed_test`) and at the end; every
               snapshot loads and is a prefix of the final report.  Model: `Saving.chosenStrategy` (which strategy) and the
@@ -58,7 +59,9 @@ def run_cli(case, watchdog=60.0):
 
     top = tempfile.mkdtemp(prefix="lccverif-c10cli-")
     side = {"recorded": [], "observer": None, "strategy": "not-created"}
-    backends = {"json": c10.make_backend("json", case["variant"]), "xml": c10.make_backend("xml")}
+    all_backends = {"json": c10.make_backend("json", case["variant"]), "xml": c10.make_backend("xml"), "junit": c10.make_backend("junit")}
+    attached = case.get("backends") or ["json", "xml"]
+    backends = {k: all_backends[k] for k in attached}          # in the order `--reporting` names them
 
     class ObserverBackend(ReportingBackend, ReportingSessionBuilderMixin):
         def get_name(self):
@@ -83,7 +86,7 @@ def run_cli(case, watchdog=60.0):
     class GeneratedProject(LP.Project):
         def __init__(self):
             LP.Project.__init__(self, top)
-            self.reporting_backends = dict(backends)
+            self.reporting_backends = dict(all_backends)
             self.reporting_backends["zz-lccverif-observer"] = ObserverBackend()
             self.default_reporting_backend_names = ["json", "xml", "zz-lccverif-observer"]
 
@@ -95,6 +98,9 @@ def run_cli(case, watchdog=60.0):
             return []
 
     argv = ["--report-dir", os.path.join(top, "report"), "--threads", str(case["spec"]["nb_threads"])]
+    if case.get("backends"):
+        # the real `--reporting` option (fixed list form): the file backends in this order, the observer last
+        argv += ["--reporting"] + list(attached) + ["zz-lccverif-observer"]
     if case["cli"] is not None:
         argv += ["--save-report", case["cli"]]
     saved_env = {k: os.environ.pop(k) for k in ENV_KEYS if k in os.environ}
@@ -129,16 +135,16 @@ def run_cli(case, watchdog=60.0):
         requested = requested_expr(case["cli"], case["env"])
         for i, (path, be) in enumerate(side["sessions"]):
             fin = c10.load_nf(path) if os.path.exists(path) else None
-            kind = "json" if path.endswith(".js") else "xml"
+            kind = {"report.js": "json", "report.xml": "xml", "report-junit.xml": "junit"}[os.path.basename(path)]
             obs["sessions"].append({"spec": [kind, case["variant"], requested], "saves": be.saves, "save_errors": be.save_errors,
                                     "copies": [{"k": k, "n": n, "load": l} for k, n, l in ob.copies[i]], "final": fin, "stray": []})
         rd = side["report_dir"]
-        expected_files = {"report.js", "report.xml"}
+        expected_files = {be.get_report_filename() for be in backends.values()}
         stray = sorted(f for f in os.listdir(rd) if f not in expected_files) if os.path.isdir(rd) else []
         obs["sessions"][0]["stray"] = stray
         obs["status_after"] = {str(k): v for k, v in ob.status_after.items()}
-        fin0 = obs["sessions"][0]["final"]
-        obs["final_report"] = fin0["nf"] if fin0 and "nf" in fin0 else R.nf_report(ob.report)
+        fin0 = next((x["final"] for x in obs["sessions"] if x["final"] and "nf" in x["final"]), None)
+        obs["final_report"] = fin0["nf"] if fin0 else R.nf_report(ob.report)
         return c10._intern(obs)
     finally:
         for k in ENV_KEYS:
@@ -168,6 +174,11 @@ class Cli(C.Stream):
         for cli, env in [("at_each_log", "at_end_of_tests"), ("at_end_of_tests", "at_each_log"), ("at_each_test", "at_each_suite"),
                          (None, "at_each_test"), ("", "at_each_suite"), ("at_each_failed_test", ""), (None, None),
                          ("at_each_suite", "bogus")]
+    ] + [
+        {"spec": _spec_one_suite([{"name": "t0", "acts": [["log", "info", "m"], ["check", False], ["log", "info", "m2"]], "mode": "run"},
+                                  {"name": "t1", "acts": [["log", "info", "m"]], "mode": "run"}]),
+         "cli": "at_each_log", "env": None, "variant": 0, "texts": "plain", "backends": backends}
+        for backends in (["json", "junit"], ["junit", "xml", "json"])
     ]
 
     def setup(self, ctx):
@@ -188,7 +199,7 @@ class Cli(C.Stream):
             cli, env = None, pick()
         else:
             cli, env = None, None
-        return {"spec": spec, "cli": cli, "env": env, "variant": rng.randint(0, 3), "texts": texts}
+        return {"spec": spec, "cli": cli, "env": env, "variant": rng.randint(0, 3), "texts": texts, "backends": c10.gen_backends(rng)}
 
     def impl(self, case):
         return run_cli(case)
@@ -256,10 +267,12 @@ class Cli(C.Stream):
             f.append("requested=%s|env=%s" % (cli, env) if valid_expr(cli) and valid_expr(env) and not cli.startswith("every")
                      and not env.startswith("every") else "option-and-variable-differ:other")
         f.append("used=" + str(obs["strategy"] if isinstance(obs["strategy"], str) else obs["strategy"].get("k")))
+        if case.get("backends"):
+            f.append("reporting=" + "+".join(case["backends"]))
         if obs["events"]:
             f.append("threads=%d" % obs["nb_threads"])
             n = len(obs["sessions"][0]["copies"])
-            f.append("json-saves=%s" % ("1" if n == 1 else "2-5" if n <= 5 else ">5"))
+            f.append("saves=%s" % ("0" if n == 0 else "1" if n == 1 else "2-5" if n <= 5 else ">5"))
         return f
 
     def shrink(self, case):
@@ -268,6 +281,10 @@ class Cli(C.Stream):
             yield dict(case, spec=c["spec"])
         if case["variant"]:
             yield dict(case, variant=0)
+        b = case.get("backends") or []
+        for i in range(len(b)):
+            if len(b) > 1:
+                yield dict(case, backends=b[:i] + b[i + 1:])
 
 
 # ------------------------------------------------------------------------------------------------
